@@ -71,6 +71,7 @@ type Gen struct {
 	T         *rapid.T
 	O         Options
 	depth     int
+	listShort bool // exprgen.go listTarget: the outermost list of the pattern under construction is written [...]
 	deepClass bool // deep.go: the nest under construction already contains a class
 	// gap rules for the gap *before* a token
 	gaps map[*token.Token]GapKind
